@@ -271,6 +271,11 @@ OPNMIDI_EXPORT int opn2_openBankFile(OPN2_MIDIPlayer *device, const char *filePa
     {
         MidiPlayer *play = GET_MIDI_PLAYER(device);
         assert(play);
+        if(!filePath)
+        {
+            play->setErrorString("OPN2 MIDI: Can't load file: no file name given");
+            return -1;
+        }
         play->m_setup.tick_skip_samples_delay = 0;
         if(!play->LoadBank(filePath))
         {
@@ -535,6 +540,11 @@ OPNMIDI_EXPORT int opn2_openFile(OPN2_MIDIPlayer *device, const char *filePath)
         MidiPlayer *play = GET_MIDI_PLAYER(device);
         assert(play);
 #ifndef OPNMIDI_DISABLE_MIDI_SEQUENCER
+        if(!filePath)
+        {
+            play->setErrorString("OPN2 MIDI: Can't load file: no file name given");
+            return -1;
+        }
         play->m_setup.tick_skip_samples_delay = 0;
         if(!play->LoadMIDI(filePath))
         {
